@@ -21,7 +21,8 @@ prop(
     rule="(start, end, step): start at 0..2h+step second offsets from the 2-hour grid (0, 1s, 37s, 59m59s, 1h, 1h59m59s, any), windows "
          "from 1 step to 3 days (capped at 9000/16000 grid points quick/thorough), steps 1s..3h including 7m, 11m, 45m, 1h1m and arbitrary "
          "second counts that do not divide 2h; 1-4 series whose label sets have DIFFERENT label names (subsets of {instance, job, cluster, __name__}, including "
-         "sets contained in one another), listed in a drawn per-slice order in each response, with presence bitmaps made of runs of length 1,2,3, slice-1, slice, slice+1, "
+         "sets contained in one another; in a third of the cases two series are twins that differ ONLY in the metric name, with overlapping, shifted or "
+         "complementary presence), listed in a drawn per-slice order in each response, with presence bitmaps made of runs of length 1,2,3, slice-1, slice, slice+1, "
          "2*slice or arbitrary, plus drawn 6-bit patterns written over every predicted slice boundary (islands, holes, runs ending/starting "
          "on the boundary); arrival order = drawn permutation. In a quarter of the cases every series is confined to the interior of ONE "
          "slice (1-3 short islands: nothing continues across a boundary, no two ranges of the result can merge). The http layer then asks the SAME "
